@@ -159,6 +159,9 @@ def replay_metrics(inp):
     return None
 
 
+STRIKE = [None]
+
+
 def job_metrics(jc):
     jc.encode(BT.BitmapMetrics.create, BT._ppem, BT._width_in_pixels, BT._pixels_to_funits, BT._nudge_into_range, BT._cbdt_bitmap_data,
               BT.make_sbix_table, CG._advance_width)
@@ -180,7 +183,13 @@ def job_metrics(jc):
                 raise core.HarnessError("imageData is not the PNG object")
             mt = data.metrics
             A = CG._advance_width(Rect(0, 0, w, h), cfg)  # the hmtx advance ColorGlyph.create assigns
-            return cfg, w, mt.BearingX, mt.BearingY, mt.BearingY - mt.height, mt.Advance, ppem, (mt.width, mt.height), A
+            # the strike as make_cbdt_table builds it for this one glyph
+            strike, sdata = BT._make_cbdt_strike(cfg, StubFont(), BT.CBDT_HEADER_SIZE, [StubGlyph(5, png)])
+            bst = strike.bitmapSizeTable
+            core.note("strike")
+            STRIKE[0] = (bst.ppemX, bst.ppemY, bst.hori.ascender, bst.hori.descender, bst.hori.widthMax, bst.startGlyphIndex, bst.endGlyphIndex,
+                         strike.indexSubTables[0].imageSize, sdata["glyph5"].metrics.Advance, sdata["glyph5"].imageData is png, bst.hori is bst.vert, m.line_height)
+            return cfg, w, mt.BearingX, mt.BearingY, mt.BearingY - mt.height, mt.Advance, ppem, (mt.width, mt.height), (A, STRIKE[0])
         font = StubFont()
         BT.make_sbix_table(cfg, font, [StubGlyph(3, png)])
         (ppem, strike), = font["sbix"].strikes.items()
@@ -205,6 +214,10 @@ def job_metrics(jc):
             jc.prove(r, justified, "rejection only for unrepresentable metrics", inp, replay_metrics, key="C14:metrics:spurious-rejection")
             continue
         cfg, w, x_off, top, bottom, adv_px, ppem, dims, A = r.value
+        STRIKE_OF = {}
+        if isinstance(A, tuple):
+            A, st = A
+            STRIKE_OF[id(r)] = st
         jc.reach(r, "ok")
         # nudged?  recompute the ideal offset independently of the code
         ppem_c = round(Fraction(upem * h, F))
@@ -215,6 +228,13 @@ def job_metrics(jc):
         props["stored width/height are the PNG's"] = z3.And(core.as_term(dims[0]) == core.as_term(w), core.as_term(dims[1]) == h)
         if fmt == "cbdt":
             props["accepted => bearingY fits int8 and resolution fits uint8"] = z3.And(core.as_term(top) >= -128, core.as_term(top) <= 127, z3.BoolVal(0 <= h <= 255))
+            if r.notes and STRIKE_OF.get(id(r)) is not None:
+                px, py, sasc, sdesc, wmax, g0, g1, isz, sadv, ident, shared, lh = STRIKE_OF[id(r)]
+                asc_px = core.as_term(cfg.ascender) * core.as_term(ppem) * R(Fraction(1, upem))
+                props["strike: ppemX = ppemY = ppem, glyph range, image size, line metrics from the config, widthMax = advance"] = z3.And(
+                    core.as_term(px) == core.as_term(ppem), core.as_term(py) == core.as_term(ppem), z3.BoolVal(g0 == 5 and g1 == 5 and isz == h and ident),
+                    absz(core.as_term(sasc) - asc_px) <= R(Fraction(1, 2)), core.as_term(sdesc) == -(core.as_term(lh) - core.as_term(sasc)),
+                    core.as_term(wmax) == core.as_term(sadv), core.as_term(sadv) == core.as_term(adv_px))
         for label, p in props.items():
             jc.prove(r, p, label, inp, replay_metrics, key=f"C14:metrics:{label.split()[0]}:{mode}")
         jc.sample(mode=mode, fmt=fmt, upem=upem, F=F, h=h, x_off=repr(x_off)[:50], top=repr(top)[:50])
